@@ -303,6 +303,7 @@ func main() {
 	}
 	{
 		info := commitTxsDecl.p.info
+		notCloned := false
 		ast.Inspect(commitTxsDecl.fd.Body, func(n ast.Node) bool {
 			as, ok := n.(*ast.AssignStmt)
 			if !ok || len(as.Lhs) != 1 || len(as.Rhs) != 1 {
@@ -316,24 +317,43 @@ func main() {
 			if !ok || info.Uses[id] == nil || !isLocalVar(info.Uses[id]) || wd.tstr(info.Uses[id].Type()) != "map[[32]uint8][]*btc.TxOut" {
 				return true
 			}
-			c, ok := as.Rhs[0].(*ast.CallExpr)
-			if !ok || len(c.Args) != 1 {
-				return true
+			// a store into the local map of output slices: EVERY such store must be a clone (one aliasing store is enough to hand
+			// the workers the slice the main loop writes into)
+			isClone := false
+			if c, ok := as.Rhs[0].(*ast.CallExpr); ok && len(c.Args) == 1 {
+				if fs, ok := c.Fun.(*ast.SelectorExpr); ok && fs.Sel.Name == "Clone" {
+					if pid, ok := fs.X.(*ast.Ident); ok {
+						if pn, ok := info.Uses[pid].(*types.PkgName); ok && pn.Imported().Path() == "slices" {
+							if a, ok := c.Args[0].(*ast.SelectorExpr); ok && a.Sel.Name == "TxOut" && isNamed(info.TypeOf(a.X), modPath+"/lib/btc", "Tx") {
+								isClone = true
+							}
+						}
+					}
+				}
 			}
-			fs, ok := c.Fun.(*ast.SelectorExpr)
-			if !ok || fs.Sel.Name != "Clone" {
-				return true
-			}
-			if pid, ok := fs.X.(*ast.Ident); !ok {
-				return true
-			} else if pn, ok := info.Uses[pid].(*types.PkgName); !ok || pn.Imported().Path() != "slices" {
-				return true
-			}
-			if a, ok := c.Args[0].(*ast.SelectorExpr); ok && a.Sel.Name == "TxOut" && isNamed(info.TypeOf(a.X), modPath+"/lib/btc", "Tx") {
+			if isClone {
 				cloned = true
+			} else {
+				notCloned = true
 			}
 			return true
 		})
+		// multi-value assignments into the map are not understood: conservative
+		ast.Inspect(commitTxsDecl.fd.Body, func(n ast.Node) bool {
+			if as, ok := n.(*ast.AssignStmt); ok && len(as.Lhs) > 1 {
+				for _, l := range as.Lhs {
+					if ix, ok := l.(*ast.IndexExpr); ok {
+						if id, ok := ix.X.(*ast.Ident); ok && info.Uses[id] != nil && isLocalVar(info.Uses[id]) && wd.tstr(info.Uses[id].Type()) == "map[[32]uint8][]*btc.TxOut" {
+							notCloned = true
+						}
+					}
+				}
+			}
+			return true
+		})
+		if notCloned {
+			cloned = false
+		}
 	}
 	// capacity of save's data channel: the one `make(chan []byte, N)` in save, N a constant expression
 	dataCap := -1
@@ -441,7 +461,7 @@ func main() {
 				die(fmt.Errorf("%s: %s on an expression that is not understood", fn, e.kind))
 			}
 			switch e.kind {
-			case "open", "close", "ret", "goBegin", "goEnd", "fnBegin", "fnEnd", "deferBegin", "deferEnd", "selBegin", "selEnd", "selDefault", "selTimeout":
+			case "neg", "open", "close", "ret", "goBegin", "goEnd", "fnBegin", "fnEnd", "deferBegin", "deferEnd", "selBegin", "selEnd", "selDefault", "selTimeout":
 				fmt.Fprintf(&b, "  .%s%s\n", e.kind, sep)
 			case "label":
 				fmt.Fprintf(&b, "  .label%s\n", sep)
@@ -452,7 +472,7 @@ func main() {
 		}
 		b.WriteString("]\n\n")
 	}
-	fmt.Fprintf(&b, "/-- in commitTxs a local `map[[32]byte][]*btc.TxOut` gets `slices.Clone(<tx>.TxOut)` -/\ndef blUnspIsClone : Bool := %v\n\n", cloned)
+	fmt.Fprintf(&b, "/-- in commitTxs EVERY store into a local `map[[32]byte][]*btc.TxOut` is `slices.Clone(<tx>.TxOut)` (and there is one) -/\ndef blUnspIsClone : Bool := %v\n\n", cloned)
 	facts++
 	fmt.Fprintf(&b, "/-- capacity of the `chan []byte` made in UnspentDB.save -/\ndef dataChanCap : Nat := %d\n\n", dataCap)
 	facts++
